@@ -81,7 +81,8 @@ def run_scratch(seed_id: str, tier: str = "quick", props=None, seeds=("1",)) -> 
     try:
         r = sh(["patch", "-p1", "-s", "-i", os.path.join(d, "patch.diff")], cwd=copy)
         if r.returncode:
-            raise SystemExit(f"cannot apply {seed_id}: {r.stdout}{r.stderr}")
+            res["results"]["apply"] = {"exit": 3, "failure": f"STALE: patch no longer applies ({(r.stdout + r.stderr).strip()[:120]})", "summary": [], "stderr": ""}
+            return res
         for pid in props:
             for s in seeds:
                 rr = sh(["/venv/bin/python", "-m", "vfw.check", pid, "--tier", tier], cwd=VERIF,
